@@ -620,7 +620,9 @@ func GenPayload(rtype string) *rapid.Generator[ReqSpec] {
 			rq.Payload = ""
 			return rq
 		case k == 1:
-			rq.Payload = rapid.SampledFrom([]string{"{", "nope", "[1,2]", "\"str\"", "42", "{\"cid\":5}", "{\"params\":}", "\x00", "{\"isHttp\":\"yes\"}", "{\"header\":{\"a\":\"b\"}}", "null", " "}).Draw(t, "malformed")
+			rq.Payload = rapid.SampledFrom([]string{"{", "nope", "[1,2]", "\"str\"", "42", "{\"cid\":5}", "{\"params\":}", "\x00", "{\"isHttp\":\"yes\"}", "{\"header\":{\"a\":\"b\"}}", "null", " ",
+				// a complete object followed by further bytes is not a JSON text
+				"{} trailing", "{\"cid\":\"abc\"}]", "{\"params\":1}{\"params\":2}", "{\"cid\":\"abc\",\"params\":{\"a\":1}} {]", "{}}"}).Draw(t, "malformed")
 			return rq
 		case k == 2:
 			rq.Payload = "{}"
